@@ -60,6 +60,9 @@ type fileTruth struct {
 	Present  bool
 	Known    bool // lies under one of the layout's roots
 	Testmain bool
+	// ImportFromFunc: the file lies directly in a root's source directory, so the path says
+	// nothing about the package: the import path stays the one of the function symbol
+	ImportFromFunc bool
 }
 
 func (l *Layout) localGoroot(base string) string {
@@ -88,15 +91,15 @@ func dirOf(rel string) string {
 func (l *Layout) truths(base string) []fileTruth {
 	var out []fileTruth
 	for _, f := range l.Goroot {
-		out = append(out, fileTruth{Remote: l.GorootRemote + "/src/" + f.Rel, Local: base + "/goroot/src/" + f.Rel, Rel: f.Rel, Import: dirOf(f.Rel), Loc: stack.Stdlib, Present: f.Present, Known: true})
+		out = append(out, fileTruth{Remote: l.GorootRemote + "/src/" + f.Rel, Local: base + "/goroot/src/" + f.Rel, Rel: f.Rel, Import: dirOf(f.Rel), Loc: stack.Stdlib, Present: f.Present, Known: true, ImportFromFunc: dirOf(f.Rel) == ""})
 	}
 	for i, g := range l.Gopaths {
 		lp := fmt.Sprintf("%s/gp%d", base, i)
 		for _, f := range g.Src {
-			out = append(out, fileTruth{Remote: g.Remote + "/src/" + f.Rel, Local: lp + "/src/" + f.Rel, Rel: f.Rel, Import: dirOf(f.Rel), Loc: stack.GOPATH, Present: f.Present, Known: true})
+			out = append(out, fileTruth{Remote: g.Remote + "/src/" + f.Rel, Local: lp + "/src/" + f.Rel, Rel: f.Rel, Import: dirOf(f.Rel), Loc: stack.GOPATH, Present: f.Present, Known: true, ImportFromFunc: dirOf(f.Rel) == ""})
 		}
 		for _, f := range g.Mod {
-			out = append(out, fileTruth{Remote: g.Remote + "/pkg/mod/" + f.Rel, Local: lp + "/pkg/mod/" + f.Rel, Rel: f.Rel, Import: dirOf(f.Rel), Loc: stack.GoPkg, Present: f.Present, Known: true})
+			out = append(out, fileTruth{Remote: g.Remote + "/pkg/mod/" + f.Rel, Local: lp + "/pkg/mod/" + f.Rel, Rel: f.Rel, Import: dirOf(f.Rel), Loc: stack.GoPkg, Present: f.Present, Known: true, ImportFromFunc: dirOf(f.Rel) == ""})
 		}
 	}
 	for _, m := range l.Modules {
@@ -260,6 +263,8 @@ func genLayout(t *rapid.T, nested bool) Layout {
 			f := rapid.SampledFrom(fsHosts).Draw(t, "host") + "/" + genRelPath(t, 2)
 			if oneIn(t, 6, "stdlikeInGopath") {
 				f = rapid.SampledFrom(fsStd).Draw(t, "stdlike")
+			} else if oneIn(t, 8, "rootLevelFile") {
+				f = rapid.SampledFrom([]string{"main.go", "x.go"}).Draw(t, "rootFile") // directly in $GOPATH/src
 			}
 			if !seen[f] {
 				seen[f] = true
